@@ -120,8 +120,9 @@ def pruned_by_archive(world, in_graph, seeded):
     return out
 
 
-def check_log(world, in_graph, seeded, pruned=()):
-    """The oracle of C01 on one finished run; returns a list of violated clauses (empty = holds)."""
+def check_log(world, in_graph, seeded, pruned=(), cut_short=False):
+    """The oracle of C01 on one finished run; returns a list of violated clauses (empty = holds).
+    cut_short: the evaluation may have been ended by a fault of the executor; components that were not reached are not required"""
     bad = []
     log = world.log
     for i in range(world.n):
@@ -140,7 +141,7 @@ def check_log(world, in_graph, seeded, pruned=()):
                     if j in in_graph and j not in pruned and ("attempt", j) not in log[:at]:
                         bad.append("component %d ran before its dependency %d was attempted" % (i, j))
             continue
-        if i in in_graph and na != 1:
+        if i in in_graph and na != 1 and not (cut_short and na == 0):
             bad.append("component %d attempted %d times (observers fired)" % (i, na))
         if i in seeded and nb:
             bad.append("pre-seeded component %d was recomputed" % i)
@@ -180,7 +181,51 @@ def warm_up(w, targets, how):
         w.args.clear()
 
 
-def run_world(n, edges, outcomes, seeded, mode, disabled=(), seed_kinds=None, late=None, archive=False, hashes=None, prios=None, driver="run"):
+class FaultyPool(object):
+    """an executor that runs every accepted task at once (a free worker thread picks it up immediately) and refuses the
+    submission number `fail_at` the way ThreadPoolExecutor.submit does (RuntimeError: can't start new thread / shut down)"""
+
+    class Refused(RuntimeError):
+        pass
+
+    def __init__(self, fail_at):
+        self.fail_at, self.n = fail_at, 0
+
+    def submit(self, fn, *a, **k):
+        if self.n == self.fail_at:
+            raise FaultyPool.Refused("can't start new thread")
+        self.n += 1
+        from concurrent.futures import Future
+        f = Future()
+        try:
+            f.set_result(fn(*a, **k))
+        except Exception as ex:  # noqa
+            f.set_exception(ex)
+        return f
+
+    def __bool__(self):
+        return True
+
+
+def prior_evaluation(w, subset, driver):
+    """an earlier evaluation, in the same process, of a filtered graph: only the components in `subset` (with their registered
+    dependency sets), on a broker of its own, through one of the drivers"""
+    g = dict((w.comps[i], set(dr.get_dependencies(w.comps[i]))) for i in subset)
+    b = dr.Broker()
+    try:
+        if driver == "run_incremental":
+            list(dr.run_incremental(g, broker=b))
+        elif driver == "run_all":
+            dr.run_all(g, broker=b)
+        else:
+            dr.run(g, broker=b)
+    except Exception:  # noqa  (the earlier evaluation is not the one being judged)
+        pass
+    w.log[:] = []
+    w.args.clear()
+
+
+def run_world(n, edges, outcomes, seeded, mode, disabled=(), seed_kinds=None, late=None, archive=False, hashes=None, prios=None, driver="run", prior=None, pool_fail=None):
     """Concrete run on whatever dr is imported (used natively for replay / sample validation)."""
     edges = dict(edges)
     if late:
@@ -190,6 +235,8 @@ def run_world(n, edges, outcomes, seeded, mode, disabled=(), seed_kinds=None, la
     if late:
         warm_up(w, targets, late[2])
         w.add_late(late[0], late[1])
+    if prior:
+        prior_evaluation(w, prior[0], prior[1])
     broker = dr.Broker()
     broker.add_observer(w.observer, ctype)
     if archive:
@@ -206,6 +253,11 @@ def run_world(n, edges, outcomes, seeded, mode, disabled=(), seed_kinds=None, la
             list(dr.run_incremental(comps, broker=broker))
         elif driver == "run_all":
             dr.run_all(comps, broker=broker)
+        elif driver == "run_all_pool":
+            try:
+                dr.run_all(comps, broker=broker, pool=FaultyPool(pool_fail))
+            except FaultyPool.Refused:
+                pass
         elif mode == "group":
             dr.run(broker=broker)          # no components named: the graph comes from the group registry
         else:
@@ -215,7 +267,7 @@ def run_world(n, edges, outcomes, seeded, mode, disabled=(), seed_kinds=None, la
             raise
         return w, broker, []          # see make_o2: outside the statement
     in_graph = reach(w, targets)
-    bad = check_log(w, in_graph, set(seeded), pruned_by_archive(w, in_graph, set(seeded)) if archive else ())
+    bad = check_log(w, in_graph, set(seeded), pruned_by_archive(w, in_graph, set(seeded)) if archive else (), driver == "run_all_pool")
     for i in seeded:
         if broker.instances.get(w.comps[i], "absent") is not seeds[i]:
             bad.append("seed value of %d was overwritten" % i)
@@ -233,7 +285,7 @@ def _edges(en, n, kinds):
     return edges
 
 
-def make_o2(n, kinds, modes, order_mode="site", outcomes=None, max_seeded=None, late=False, archive=False, prio=False, drivers=("run",)):
+def make_o2(n, kinds, modes, order_mode="site", outcomes=None, max_seeded=None, late=False, archive=False, prio=False, drivers=("run",), prior=False):
     outcomes = outcomes or OUTCOMES
 
     def o2(en):
@@ -277,6 +329,13 @@ def make_o2(n, kinds, modes, order_mode="site", outcomes=None, max_seeded=None, 
                 warm_up(w, list(range(n)) if mode in ("all", "group") else [n - 1], late_edge[2])
                 w.add_late(late_edge[0], late_edge[1])
                 edges = w.edges
+            prior_ev = None
+            if prior:
+                sub = [i for i in range(n) if en.flag("prior_member_%d" % i)]
+                if not sub or len(sub) == n:
+                    raise core.Abort()
+                prior_ev = (sub, ["run", "run_incremental", "run_all"][en.choice("prior_driver", 3)])
+                prior_evaluation(w, sub, prior_ev[1])          # (set orders are varied in the judged evaluation only)
             broker = dr.Broker()
             broker.add_observer(w.observer, ctype)
             if archive:
@@ -297,14 +356,18 @@ def make_o2(n, kinds, modes, order_mode="site", outcomes=None, max_seeded=None, 
             en.note_sample(lambda mv: {"n": n, "edges": [[i, j, k] for (i, j), k in sorted(edges.items())],
                                        "outcomes": dict((str(i), o) for i, o in chosen.items()), "seeded": seeded,
                                        "seed_kinds": dict((str(i), k) for i, k in seed_kind.items()), "mode": mode, "disabled": [i for i in range(n) if not mv.bool(enabled[i])],
-                                       "late": late_edge, "archive": archive, "prios": dict((str(k_), v_) for k_, v_ in (prios or {}).items()), "driver": driver, "log": [list(x) for x in w.log]})
+                                       "late": late_edge, "archive": archive, "prios": dict((str(k_), v_) for k_, v_ in (prios or {}).items()), "driver": driver, "prior": prior_ev, "log": [list(x) for x in w.log]})
             raised = None
+            pool_fail = None
             with oset.symbolic_order(mode=order_mode):
                 try:
                     if driver == "run_incremental":
                         list(dr.run_incremental([w.comps[i] for i in targets], broker=broker))
                     elif driver == "run_all":
                         dr.run_all([w.comps[i] for i in targets], broker=broker)
+                    elif driver == "run_all_pool":
+                        pool_fail = en.choice("pool_refuses_submission", n + 1)        # n = never
+                        dr.run_all([w.comps[i] for i in targets], broker=broker, pool=FaultyPool(pool_fail))
                     elif mode == "group":
                         dr.run(broker=broker)
                     else:
@@ -314,15 +377,18 @@ def make_o2(n, kinds, modes, order_mode="site", outcomes=None, max_seeded=None, 
             case = lambda mv: {"kind": "run", "n": n, "edges": [[i, j, k] for (i, j), k in sorted(edges.items())],  # noqa
                                "outcomes": dict((str(i), o) for i, o in chosen.items()), "seeded": seeded, "mode": mode,
                                "seed_kinds": dict((str(i), k) for i, k in seed_kind.items()), "late": late_edge, "archive": archive,
-                               "prios": dict((str(k_), v_) for k_, v_ in (prios or {}).items()), "driver": driver,
+                               "prios": dict((str(k_), v_) for k_, v_ in (prios or {}).items()), "driver": driver, "prior": prior_ev, "pool_fail": pool_fail,
                                "disabled": [i for i in range(n) if not mv.bool(enabled[i])], "log": [list(x) for x in w.log]}
             if archive and isinstance(raised, KeyError):
                 # dr.run's pruning loop raises KeyError when a pre-seeded component directly depends on another pre-seeded one and
                 # the targets were given as a list (plain dict graph): nothing is evaluated; C01 states nothing about it
                 return
+            cut_short = driver == "run_all_pool"
+            if isinstance(raised, FaultyPool.Refused):
+                raised = None         # the executor's own refusal may surface; what was attempted so far is still judged
             en.must_hold(raised is None, "run-returns", case, detail=repr(raised))
             in_graph = reach(w, targets)
-            bad = check_log(w, in_graph, set(seeded), pruned_by_archive(w, in_graph, set(seeded)) if archive else ())
+            bad = check_log(w, in_graph, set(seeded), pruned_by_archive(w, in_graph, set(seeded)) if archive else (), cut_short)
             en.must_hold(not bad, "once-and-ordered", case, detail=bad)
             for i in seeded:
                 got = broker.instances.get(w.comps[i], "absent")
@@ -487,6 +553,20 @@ def obligations(tier):
                    outside=["a pre-seeded component that directly depends on another pre-seeded one with the targets given as a list: dr.run raises KeyError in its pruning loop before anything is evaluated (not a statement of C01; see DESIGN.md, observations)"],
                    stubs=stubs, encoded=enc, budget_s=600 if thorough else 100, replay="run", check_sample=True),
     ]
+    obls.append(Obligation("O10-after-a-filtered-evaluation", make_o2(4 if thorough else 3, ["none", "required", "optional"], ["all"], "global", ["value", "skip"], 0, prior=True,
+                                                                       drivers=("run", "run_incremental")), ["run-returns", "once-and-ordered"],
+                           desc="the evaluation follows an earlier one, in the same process, of a filtered graph (a proper non-empty subset of the components with their registered dependency sets, "
+                                "a broker of its own, through dr.run / run_incremental / run_all): it still attempts every component once and after its dependencies",
+                           bounds={"components": 4 if thorough else 3, "edge kinds": ["none", "required", "optional"], "earlier evaluation": "any proper non-empty subset x 3 drivers", "outcomes": ["value", "skip"],
+                                   "driver": ["run", "run_incremental"], "set order": "every global total order"},
+                           stubs=stubs, encoded=enc + [dr.determine_components, dr.get_subgraphs], budget_s=600 if thorough else 100, replay="run", check_sample=True))
+    obls.append(Obligation("O11-executor-refuses", make_o2(4 if thorough else 3, ["none", "required", "optional"], ["all"], "global", ["value", "skip", "crash"], 0, drivers=("run_all_pool",)),
+                           ["run-returns", "once-and-ordered"],
+                           desc="run_all with an executor that refuses the k-th submission (RuntimeError: can't start new thread / shut down) after having run the accepted sub-graphs: "
+                                "however the evaluation ends, nothing that was attempted is attempted again and nothing runs before its dependencies",
+                           bounds={"components": 4 if thorough else 3, "edge kinds": ["none", "required", "optional"], "refused submission": "any, or none", "outcomes": ["value", "skip", "crash"], "set order": "every global total order"},
+                           stubs=stubs + ["executor stub: an accepted task runs at once; submit() raises RuntimeError at the chosen submission"], outside=["tasks still running when the refusal happens"],
+                           encoded=enc + [dr.run_all, dr.generate_incremental], budget_s=600 if thorough else 100, replay="run", check_sample=True))
     obls.append(Obligation("O7-priorities", make_o2(4 if thorough else 3, ["none", "required", "optional"], ["all", "last", "group"], "global", ["value", "skip"], 0, prio=True),
                            ["run-returns", "once-and-ordered"],
                            desc="one component carries a collection priority (`prio`) other than 0, as registry points and datasources may: priorities order independent sub-graphs, never a component before its dependencies",
@@ -548,7 +628,7 @@ def _native_case(case, hashes=None):
         outcomes = dict((int(i), o) for i, o in case["outcomes"].items())
         w, b, bad = run_world(case["n"], edges, outcomes, case["seeded"], case["mode"], disabled=case.get("disabled", ()),
                               seed_kinds=case.get("seed_kinds"), late=case.get("late"), archive=case.get("archive", False), hashes=hashes,
-                              prios=dict((int(k_), v_) for k_, v_ in (case.get("prios") or {}).items()), driver=case.get("driver", "run"))
+                              prios=dict((int(k_), v_) for k_, v_ in (case.get("prios") or {}).items()), driver=case.get("driver", "run"), prior=case.get("prior"), pool_fail=case.get("pool_fail"))
         return w, bad
     raise ValueError(case)
 
